@@ -62,27 +62,41 @@ def rotateRhoOp (j : Json) : R Json := do
   let res := rotateRhoL n us rows
   return .arr ((Array.range (2 ^ n)).map (fun i => .arr ((Array.range (2 ^ n)).map (fun k => outC ((res.getD i (fun _ => (0, 0))) k)))))
 
-def innerProdOp (j : Json) : R Json := do
+/-- `rotate_psi_inner_prod`; `enum = true`: the enumeration form the code uses (C04_inner_prod_enum), `false`: the filtered
+sum over all `2^n` states (C04_inner_prod) -/
+def innerProdOp (enum : Bool) (j : Json) : R Json := do
   let n ← jNat (← fld j "n")
   let us ← parseUs (α := α) (← fld j "us") n
   let rot ← parseRot (← fld j "rot") n
   let psi ← (← jArr (← fld j "psi")).mapM (parseC (α := α))
   if psi.size != 2 ^ n then throw "psi: wrong length"
   let states ← (← jArr (← fld j "states")).mapM (fun s => parseBits s n)
-  return .arr (states.map (fun σ => outC (rotatePsiInnerProd n us rot (fun τ => psi[basisIndex τ]!) σ)))
+  let f := if enum then rotatePsiInnerProdE n us rot else rotatePsiInnerProd n us rot
+  return .arr (states.map (fun σ => outC (f (fun τ => psi[basisIndex τ]!) σ)))
+
+/-- `Ut, v = _rotate_basis_state(basis, states)`: per sample, the expanded states (bit lists) and coefficients in order -/
+def expandOp (j : Json) : R Json := do
+  let n ← jNat (← fld j "n")
+  let us ← parseUs (α := α) (← fld j "us") n
+  let rot ← parseRot (← fld j "rot") n
+  let states ← (← jArr (← fld j "states")).mapM (fun s => parseBits s n)
+  return .arr (states.map (fun σ =>
+    let r := rotateBasisState n us rot σ
+    Json.mkObj [("v", .arr (r.map (fun cv => Json.arr ((Array.ofFn (n := n) (fun s => cv.2 s)).map (fun b => iOut (if b then 1 else 0))))).toArray),
+                ("Ut", .arr (r.map (fun cv => outC cv.1)).toArray)]))
 end
 
 section
 variable {α : Type} [Add α] [Mul α] [Neg α] [Sub α] [Zero α] [One α] [Codec α] [Inhabited α]
-def rhoProbsOp (j : Json) : R Json := do
+def rhoProbsOp (enum : Bool) (j : Json) : R Json := do
   let n ← jNat (← fld j "n")
   let us ← parseUs (α := α) (← fld j "us") n
   let rot ← parseRot (← fld j "rot") n
   let rho ← (← jArr (← fld j "rho")).mapM (fun r => do (← jArr r).mapM (parseC (α := α)))
   if rho.size != 2 ^ n || !rho.all (·.size == 2 ^ n) then throw "rho: wrong shape"
   let states ← (← jArr (← fld j "states")).mapM (fun s => parseBits s n)
-  return .arr (states.map (fun σ =>
-    Codec.out (rotateRhoProbs n us rot (fun a b => (rho[basisIndex a]!)[basisIndex b]!) σ)))
+  let f := if enum then rotateRhoProbsE n us rot else rotateRhoProbs n us rot
+  return .arr (states.map (fun σ => Codec.out (f (fun a b => (rho[basisIndex a]!)[basisIndex b]!) σ)))
 end
 
 /-- the model's default dictionary evaluated in Float -/
@@ -97,10 +111,16 @@ def handle (op : String) (j : Json) : Option (R Json) :=
   | "c04.rotate_psi_int" => some (rotatePsiOp (α := Int) j)
   | "c04.rotate_rho" => some (rotateRhoOp (α := Float) j)
   | "c04.rotate_rho_int" => some (rotateRhoOp (α := Int) j)
-  | "c04.inner_prod" => some (innerProdOp (α := Float) j)
-  | "c04.inner_prod_int" => some (innerProdOp (α := Int) j)
-  | "c04.rho_probs" => some (rhoProbsOp (α := Float) j)
-  | "c04.rho_probs_int" => some (rhoProbsOp (α := Int) j)
+  | "c04.inner_prod" => some (innerProdOp (α := Float) true j)
+  | "c04.inner_prod_int" => some (innerProdOp (α := Int) true j)
+  | "c04.rho_probs" => some (rhoProbsOp (α := Float) true j)
+  | "c04.rho_probs_int" => some (rhoProbsOp (α := Int) true j)
+  | "c04.inner_prod_filter" => some (innerProdOp (α := Float) false j)
+  | "c04.inner_prod_filter_int" => some (innerProdOp (α := Int) false j)
+  | "c04.rho_probs_filter" => some (rhoProbsOp (α := Float) false j)
+  | "c04.rho_probs_filter_int" => some (rhoProbsOp (α := Int) false j)
+  | "c04.expand" => some (expandOp (α := Float) j)
+  | "c04.expand_int" => some (expandOp (α := Int) j)
   | "c04.dict" => some (pure dictOp)
   | _ => none
 
